@@ -84,6 +84,8 @@ class C08(VariantCheck):
             f.write("CONSTANTS Eps = 1\n MaxSegs = 3\n MaxRank = 8\n Slack = 1\n MinGap = 1\nSPECIFICATION Spec\nINVARIANTS NoUpwardShift\nCHECK_DEADLOCK FALSE\n")
         ms.append(ModelRun("CompIntercepts.tla", cfg, "sensitivity: segments that start one rank apart (chunk seam) get an intercept moved up (F16)", workers=1, timeout=300,
                            expect="violation:*", constants={"Eps": 1, "MinGap": 1}))
+        ms.append(ApalacheRun("ClampLemma.tla", "Lemma", "ClampLemma (Apalache): starts >= 2 Eps + 1 apart => the lower clamp of the stored intercepts never binds, for all integers"))
+        ms.append(ApalacheRun("ClampLemma.tla", "Seam", "ClampLemma (Apalache), sensitivity: starts 1 apart (chunk seam) => an intercept is moved up", expect="violation:*"))
         for eps, er, route in ((1, 1, "linear"), (1, 1, "binary_window"), (1, 0, "binary_one_level")):
             name = "PGM_e%d_r%d_%s" % (eps, er, route)
             ms.append(ModelRun("PGMIndex.tla", props_static.pgm_cfg(work, name, 8, 6, eps, er, 8, route, 1, props_static.PGM_INV), name, workers=2, timeout=1500,
